@@ -398,7 +398,7 @@ c.requires('self-is-scheduler', lambda c: is_sched(c.a.self))
 c.requires('shutdown_timeout-is-None-or-a-number', lambda c: Or(
     c.pre.f('shutdown_timeout', c.a.self) == NONE, L.is_num(c.pre.f('shutdown_timeout', c.a.self))))
 c.modifies('_did_shutdown', '_expiration', '$alive', '$llen', '$lat', '$elems', '$cancel_req', '$cancel_vt',
-           '_state', '_exception', '_result', '$wjob', '$twin', '$sd_of', '$shut', '$created_vt', '_job')
+           '_state', '_exception', '_result', '$wjob', '$twin', '$sd_of', '$shut', '$created_vt', '_job', '$setrole')
 c.store_guard = lambda c, field, obj, val: And(obj == c.a.self, field in ('_did_shutdown', '_expiration')) \
     if field in ('_did_shutdown', '_expiration') else z3.BoolVal(False)
 
@@ -453,6 +453,7 @@ def _sd_frame(c):
     out = task_rely(pre, cur, only_alive=True) + [
         sched_frame(pre, cur, S),
         local_sets_unchanged(pre, cur, S),
+        roles_unchanged(pre, cur),
         ForAll([t], Implies(And(pre.alive(t), member(pre, S, pre.f('$wjob', t))),
                             And(cur.f('$cancel_req', t) == pre.f('$cancel_req', t),
                                 cur.f('$cancel_vt', t) == pre.f('$cancel_vt', t))),
